@@ -24,6 +24,7 @@ SAMPLE = {"UTF8String": ["a", "xyz", "Hello World", "q-1"], "IA5String": ["a", "
 class G:
     def __init__(self, seed, prefix):
         self.r = random.Random(seed)
+        self.proto = False
         self.prefix = prefix
         self.named = []       # (name, kind) of earlier top-level types; kind in struct/choice/enum/list/prim
         self.enums = {}       # name -> [values]
@@ -61,6 +62,11 @@ class G:
             return f"INTEGER ({lo}..MAX)", (lo, lo + 1000 if lo < 2**62 else lo)
         if k == 2:
             hi = r.choice(BOUNDS)
+            if self.proto and hi < 0:
+                # asn1rs maps (MIN..hi) to u64 whatever hi is: with hi < 0 the Rust type holds no valid value at
+                # all (integer type selection, C15, is not a claimed property), and the protobuf writer narrows by
+                # the constraint, so nothing about such a type is meaningful under C17
+                hi = -hi
             # asn1rs picks the Rust type of (MIN..hi) from hi alone (unsigned for hi >= 0): defaults stay at hi or 0
             return f"INTEGER (MIN..{hi})", (min(hi, 0), hi)
         a, b = r.choice(BOUNDS), r.choice(BOUNDS)
@@ -253,6 +259,7 @@ class G:
 def main():
     letter, seed, count = sys.argv[1], int(sys.argv[2]), int(sys.argv[3])
     g = G(seed, "R" + letter)
+    g.proto = len(sys.argv) > 4 and sys.argv[4] == "proto"
     for _ in range(count):
         g.top()
     module = "ZooRand" + letter.upper()
